@@ -29,3 +29,10 @@ func (ds *AnySource) VerifC05SetChannel(i int, name string, number, row, col, ro
 
 // VerifC05BuildInfo returns the version strings that the headers carry.
 func VerifC05BuildInfo() (version, githash string) { return Build.Version, Build.Githash }
+
+// VerifC05SetStatusLengths tells the RPC stand-in (VerifNewRPC) which record lengths the source was prepared with,
+// as SourceControl.Start would have (ConfigurePulseLengths compares a request with them).
+func (r *VerifRPC) VerifC05SetStatusLengths(npre, nsamp int) {
+	r.SC.status.Npresamp = npre
+	r.SC.status.Nsamples = nsamp
+}
